@@ -27,16 +27,17 @@ TRUSTED = [
     "modelled by hand: BitParser's trie walk, CCITTG4Parser's mode interpretation and line handling, output_line "
     "(Model/CCITT.v); generated from source on every run: every BitParser.add of MODE / WHITE / BLACK (Gen/CCITTTables.v). "
     "The T.4/T.6 code tables of the specification are typed into Spec/T6Tables.v and compared by vm_compute",
-    "uncompressed mode is not modelled; proved: tables, prefix-freeness, trie walk, run-length codes, bit packing, and the "
-    "mode layer for whole pages (every admissible pass/vertical/horizontal coding of every bitmap); the glue between the "
-    "bit string of an element and the decoder's reaction to it, and EncodedByteAlign, are covered by differential runs",
+    "uncompressed mode is not modelled; proved for encodings without EncodedByteAlign: the whole chain from bytes to rows "
+    "(tables, prefix-freeness, trie walk, run-length codes, mode layer, glue, bit packing); EncodedByteAlign=true (ByteSkip), "
+    "EOFB after the last row and the PDFStream wrapper are covered by differential runs",
 ]
 ASSUMPTIONS = ["Columns >= 1; K = -1"]
 MANIFEST_ENTRY = {
     "category": "proof",
     "technique": "Coq: generated code tables = T.4/T.6 tables (vm_compute), prefix-freeness and trie-walk lemma, run-length "
                  "round trip for every n by induction, bit packing; mode layer by an invariant over decoder states (curline agrees "
-                 "with the row left of a0) and induction over the admissible element sequence and over rows; differential runs with a nondeterministic T.6 encoder "
+                 "with the row left of a0) and induction over the admissible element sequence and over rows; glue from bit strings "
+                 "to elements by trie-walk lemmas, up to the scratch fields of the parser state; differential runs with a nondeterministic T.6 encoder "
                  "incl. exhaustive small bitmaps",
     "text": "Theorems: the MODE/WHITE/BLACK tables regenerated from ccitt.py equal the ITU-T T.4/T.6 tables; each table is "
             "prefix-free, so walking the trie on code++rest accepts exactly that code's value; every run length n>=0, written "
@@ -44,9 +45,12 @@ MANIFEST_ENTRY = {
             "rows are packed MSB-first with BlackIs1 inversion. Mode layer: the decoder's search loops compute b1/b2 as T.6 "
             "defines them; for every bitmap (any width, any height) and every admissible sequence of pass (b2<a1), vertical "
             "(a1-b1=d, |d|<=3) and horizontal (a0a1, a1a2) elements, the decoder's reactions rebuild exactly the rows in "
-            "order, and every bitmap has such a coding. NOT proved: that the concatenated bit string of the elements drives "
-            "the bit-level parser to exactly those reactions (each piece is proved separately; their composition and "
-            "EncodedByteAlign are covered by exhaustive small bitmaps and random large ones) - claimed partial.",
+            "order. Glue: the bit string of an element (mode code; for horizontal elements any make-up/terminating "
+            "decomposition of both runs) drives the bit-level parser to that reaction; hence the bytes of any admissible "
+            "encoding without EncodedByteAlign, zero-padded to a byte boundary, make the model of ccittfaxdecode return "
+            "exactly the packed rows, for either polarity, and every bitmap has such an encoding "
+            "(C19_every_bitmap_round_trips). NOT proved: EncodedByteAlign=true and the EOFB marker (covered by exhaustive "
+            "small bitmaps and random large ones) - claimed partial for those configurations.",
     "note": "Trusted: Coq kernel, table translator, typed-in T.4/T.6 tables, hand model tied by differential runs, harness encoder.",
     "design_ref": "DESIGN.md section 4, C19",
 }
